@@ -1,5 +1,5 @@
 """C08 - parse has exactly three outcomes, fixed by the start rule's match."""
-from contracts import rt_run, rt_final, rt_errors, rt_misc
+from contracts import rt_run, rt_final, rt_errors, rt_misc, rt_walk
 from pyvc.report import Report
 from .common import run_rt
 from . import wiring
@@ -11,7 +11,7 @@ def run(tier, seed):
                      'PartialParseError(value, end) / ParseError at the failure position); _finalize_parse_info, _position_at, error functions, '
                      'excerpt and line/column map: every operation that can raise carries a safety VC, so "no other exception" is the '
                      'conjunction of discharged safety VCs; every entry point is shown (on emitted text) to be _run over the right implementation.')
-    run_rt(rep, rt_run.RUN + rt_final.FINAL + rt_errors.RT + rt_misc.EXC, tier)
+    run_rt(rep, rt_run.RUN + rt_final.FINAL + rt_errors.RT + rt_misc.EXC + [rt_walk.VisitC()], tier)
     wiring.entry_point_obligations(rep, tier)
     rep.assumptions.append('the shift clause (parse(text,k) vs parse(text[k:],0)) is not mechanised: positions are absolute indices in every '
                            'contract (leaves read text at p, never before it, re contract aside); stated as a paper consequence')
